@@ -126,6 +126,10 @@ func (g *gen) next(i int) string {
 			h.Count("gen.exhaustive")
 			return "parse " + vh.Hex([]byte(g.exhaustive(g.shard+i*g.shards)))
 		}
+		if h.Rng.IntN(1500) == 0 {
+			h.Count("gen.stress")
+			return "parse " + vh.Hex([]byte(g.stress()))
+		}
 		switch c := h.Rng.IntN(20); {
 		case c < 4:
 			h.Count("gen.valid")
@@ -718,6 +722,46 @@ func (g *gen) validDoc(budget int) *doc {
 		d.raw(vh.Pick(h, []string{" ", "\t", "  \n  "}))
 	}
 	return d
+}
+
+// stress: deep nesting, long tokens, many statements, many diagnostics.
+func (g *gen) stress() string {
+	h := g.h
+	size := 40 + h.Rng.IntN(260)
+	if h.Tier == "thorough" {
+		size = 300 + h.Rng.IntN(4000)
+	}
+	switch h.Rng.IntN(7) {
+	case 0: // deeply nested array, closed or not
+		s := "a = " + strings.Repeat("[", size) + "1"
+		if h.Chance(1, 2) {
+			s += strings.Repeat("]", size-h.Rng.IntN(2))
+		}
+		return s + "\n"
+	case 1: // deeply nested blocks
+		var b strings.Builder
+		for k := 0; k < size; k++ {
+			b.WriteString("b t {\n")
+		}
+		for k := size - h.Rng.IntN(3); k > 0; k-- {
+			b.WriteString("}\n")
+		}
+		return b.String()
+	case 2: // long tokens
+		return strings.Repeat("x", size) + " = \"" + strings.Repeat("é", size) + "\" //" + strings.Repeat("c", size) + "\n|" + strings.Repeat(" w", size) + "\n"
+	case 3: // long reference / many tags / qualifiers
+		return "a" + strings.Repeat(".b", size) + strings.Repeat(" t", size/4) + strings.Repeat(":q", size/4) + " {\n}\n"
+	case 4: // many diagnostics in collect-all mode
+		return strings.Repeat("= 1\n", size)
+	case 5: // many lexer errors
+		return strings.Repeat("# ", size) + "\n" + strings.Repeat("\"\n", size/4)
+	default: // many lines
+		var b strings.Builder
+		for k := 0; k < size; k++ {
+			fmt.Fprintf(&b, "k%d = %d\n", k, k)
+		}
+		return b.String()
+	}
 }
 
 // tokenMutation: a valid document with one token deleted, inserted or two swapped.
